@@ -86,6 +86,7 @@ def op_range_reversed(a, b, c): return bounded(range(a, b, c), reversed)
 def op_range_idx(a, b, c, i): return range(a, b, c)[i]
 def op_range_in(a, b, c, x): return x in range(a, b, c)
 def op_range_slice_len(a, b, c, i, j, k): return len(range(a, b, c)[i:j:k])
+def op_range_slice(a, b, c, i, j, k): return range(a, b, c)[i:j:k]
 def op_range_slice_first3(a, b, c, i, j, k): return first3(range(a, b, c)[i:j:k])
 def op_range_slice_idx(a, b, c, i, j, k, m): return range(a, b, c)[i:j:k][m]
 def op_range_eq(a, b, c, d, e, f): return range(a, b, c) == range(d, e, f)
@@ -1315,7 +1316,71 @@ func init() {
 // goAPI: the exported conversions between Starlark numbers and Go numbers.
 // Each result is rendered through big.Int / the float's bits, so that the
 // rendering does not use the code under test.
+// goRangeFirst3: the first three elements of range(a, b, c) (sliced [i:j:k] if six
+// more arguments are given) as the Go host sees them: through the push iterator
+// starlark.Elements (leaving the loop early), through Iterate/Next, and through Index.
+func (e *evaluator) goRangeFirst3(args []string) (string, starlark.Value) {
+	var vals starlark.Tuple
+	for _, a := range args {
+		v, err := argValue(a)
+		if err != nil {
+			fw.Fatal("c10: %v", err)
+		}
+		vals = append(vals, v)
+	}
+	r, err := starlark.Call(e.th, starlark.Universe["range"], vals[:3], nil)
+	if err != nil {
+		return "E", nil
+	}
+	if len(vals) == 6 {
+		sl, ok := r.(starlark.Sliceable)
+		if !ok {
+			return "srange is not Sliceable", nil
+		}
+		// resolve the slice the way the interpreter does: through Starlark
+		fn := e.g["op_range_slice"]
+		if fn == nil {
+			fw.Fatal("c10: helper op_range_slice missing")
+		}
+		_ = sl
+		r, err = starlark.Call(e.th, fn, vals, nil)
+		if err != nil {
+			return "E", nil
+		}
+	}
+	it, ok := r.(starlark.Iterable)
+	if !ok {
+		return "snot iterable", nil
+	}
+	var viaElements, viaNext, viaIndex []starlark.Value
+	for x := range starlark.Elements(it) {
+		viaElements = append(viaElements, x)
+		if len(viaElements) == 3 {
+			break
+		}
+	}
+	iter := it.Iterate()
+	var x starlark.Value
+	for len(viaNext) < 3 && iter.Next(&x) {
+		viaNext = append(viaNext, x)
+	}
+	iter.Done()
+	if ix, ok := r.(starlark.Indexable); ok {
+		for i := 0; i < 3 && i < ix.Len(); i++ {
+			viaIndex = append(viaIndex, ix.Index(i))
+		}
+	}
+	a, b, c := render(starlark.NewList(viaElements)), render(starlark.NewList(viaNext)), render(starlark.NewList(viaIndex))
+	if a != b || b != c {
+		return fmt.Sprintf("sElements %s, Iterate %s, Index %s", a, b, c), nil
+	}
+	return a, nil
+}
+
 func (e *evaluator) goAPI(op string, args []string) (string, starlark.Value) {
+	if op == "go_range_first3" || op == "go_range_slice_first3" {
+		return e.goRangeFirst3(args)
+	}
 	x, err := argValue(args[0])
 	if err != nil {
 		fw.Fatal("c10: %v", err)
